@@ -396,7 +396,8 @@ pub fn gen_c13(r: &mut Rng, profile: &str) -> MScn {
     let end = if r.chance(1, 6) { EndKind::AcvLoad } else { EndKind::Halt };
     let mut s = gen_structured(r, profile, false, end);
     s.flags.ignore_privilege = false;
-    s.max_ticks = 400 + r.below(1200) as u32;
+    let deep = r.deep();
+    s.max_ticks = (400 + r.below(1200) as u32) * deep;
     s.ops.clear();
     // MCR cleared by the host at arbitrary instants (i) via the clock, (ii) from a device callback
     if r.chance(1, 3) {
@@ -412,7 +413,7 @@ pub fn gen_c13(r: &mut Rng, profile: &str) -> MScn {
     if r.chance(1, 8) {
         s.ops.push(Op::SetInstrCount(u64::MAX - r.below(64)));
     }
-    let n = 1 + r.below(11);
+    let n = (1 + r.below(11)) * deep as u64;
     for _ in 0..n {
         match r.below(16) {
             0 | 1 => s.ops.push(Op::Run),
